@@ -129,8 +129,14 @@ class SemBacked:
         self.res = res
         self.extra = res.extra
 
+    def __init__(self, res, accessors_observed=False):
+        self.res = res
+        self.extra = res.extra
+        # A-sem evaluated every accessor on the frame value new() builds: the accessor template rules (accessor = plain field) are covered too
+        self.accessors_observed = accessors_observed
+
     def ob(self, rule, key, ok, detail="", loc=None, sample=None):
-        if rule in SEM_COVERED and not str(key).startswith("accessor") and not ok:
+        if rule in SEM_COVERED and (self.accessors_observed or not str(key).startswith("accessor")) and not ok:
             return self.res.ob(rule, key, True, "shape not recognised by the template rule; the clause is decided by A-sem (abstract interpretation). " + str(detail)[:200], loc)
         return self.res.ob(rule, key, ok, detail, loc, sample=sample)
 
@@ -554,6 +560,12 @@ def accessor_rule(prog, res, fields=None):
     if res.extra.get("_accessors_done") == id(prog):
         return
     res.extra["_accessors_done"] = id(prog)
+    sem = frame_semantics(prog)
+    if not sem["undecided"] and not sem["problems"] and {"frame_data", "data", "crc", "message_number", "data_len", "frame_len"} <= set(sem.get("observed", ())):
+        # A-sem judged what the accessors return on the frame new() builds (framesem.observe): stored or derived makes no difference
+        res.ob("A-out", "accessor | frame_data(), data(), crc(), message_number(), data_len(), frame_len() evaluated on the frame new() builds return the specified values [A-sem]",
+               True, "each accessor interpreted on every Ok path of MessageFrame::new", (prog.fn(NEW).loc if prog.fn(NEW) else None))
+        res = SemBacked(res, accessors_observed=True)
     # accessors
     want = {"data": ("data", None), "frame_data": ("frame_data", None), "crc": ("crc", None),
             "message_number": ("message_number", None), "data_len": ("data", "len"), "frame_len": ("frame_data", "len")}
@@ -600,7 +612,7 @@ def accessor_rule(prog, res, fields=None):
                 else:
                     x = None
             if x is not None:
-                ok = field_of(strip_ref(x)) == fields.index(fld)
+                ok = fld in fields and field_of(strip_ref(x)) == fields.index(fld)
         res.ob("A-out", "accessor | %s() returns %s%s" % (acc, "len of " if how else "", fld), ok,
                show(v, ga.names) if v is not None else "no unique return", g.loc)
 
@@ -1097,6 +1109,16 @@ def _rules_scan_template(prog, res, f, m=None):
 _ISEM = {}
 
 
+def iter_semantics(prog):
+    if id(prog) not in _ISEM:
+        import framesem
+        try:
+            _ISEM[id(prog)] = framesem.check_iter(prog)
+        except RecursionError:
+            _ISEM[id(prog)] = {"paths": 0, "problems": [], "undecided": ["recursion limit"]}
+    return _ISEM[id(prog)]
+
+
 class ISemBacked(SemBacked):
     def ob(self, rule, key, ok, detail="", loc=None, sample=None):
         k = str(key)
@@ -1112,13 +1134,7 @@ def rules_iter(prog, res):
         res.missing("I-iter", ITER_NEXT)
         return
     res.fn(f)
-    if id(prog) not in _ISEM:
-        import framesem
-        try:
-            _ISEM[id(prog)] = framesem.check_iter(prog)
-        except RecursionError:
-            _ISEM[id(prog)] = {"paths": 0, "problems": [], "undecided": ["recursion limit"]}
-    sem = _ISEM[id(prog)]
+    sem = iter_semantics(prog)
     if not sem["undecided"]:
         res.ob("I-iter", "iter | next() = None when index >= data.len(), else one scan of data[index..], index += consumed, the scanner's frame returned [I-sem]",
                not sem["problems"], "; ".join(sem["problems"])[:500] if sem["problems"] else "abstract interpretation: %d paths" % sem["paths"], f.loc)
